@@ -154,11 +154,18 @@ Definition rfails (fb : rbeh) : bool := match fb with ROk => false | _ => true e
 Definition start_failed (ph : phase) (ev : event) : bool :=
   match ev with EStart _ ph' SRFail => phase_eqb ph' ph | _ => false end.
 
+(* the fields that run: up to the first fatal one *)
+Fixpoint executed (fields : list rbeh) : list rbeh :=
+  match fields with
+  | [] => []
+  | fb :: r => fb :: if is_fatal fb then [] else executed r
+  end.
+
 (* the request's own errors when it reaches execution *)
 Definition class_errors (c : cls) : N :=
   match c with
   | CVarErr => 1
-  | CExec fields => N.of_nat (length (filter rfails fields))
+  | CExec fields => N.of_nat (length (filter rfails (executed fields)))
   | _ => 0
   end.
 
